@@ -196,6 +196,7 @@ func GenEllDatum(r *R, d *Def, o *Options) {
 		if d.DatKind == "towgs84_7" {
 			p = append(p, F(r.Range(-rl, rl)), F(r.Range(-rl, rl)), F(r.Range(-rl, rl)), F(r.Range(-sl, sl)))
 		}
+		SparseTowgs84(r, p)
 		d.Datum = " +towgs84=" + strings.Join(p, ",")
 	}
 	// units
@@ -222,6 +223,40 @@ func GenEllDatum(r *R, d *Def, o *Options) {
 		case 1:
 			v := r.Range(-30, 30)
 			d.PM, d.PMDeg = " +pm="+F(v), v
+		}
+	}
+}
+
+// SparseTowgs84 sets, in a quarter of the cases, a random subset of the terms
+// to exactly zero (scale-only, rotation-only, translation-only, single-term
+// and all-zero shifts are boundary cases of the 3-/7-parameter classification).
+func SparseTowgs84(r *R, p []string) {
+	if !r.Chance(0.25) {
+		return
+	}
+	switch r.Intn(5) {
+	case 0: // rotations zero, scale kept
+		for i := 3; i < 6 && i < len(p); i++ {
+			p[i] = "0"
+		}
+	case 1: // translations zero
+		p[0], p[1], p[2] = "0", "0", "0"
+	case 2: // translations and rotations zero: scale only
+		for i := 0; i < 6 && i < len(p); i++ {
+			p[i] = "0"
+		}
+	case 3: // a single non-zero term
+		keep := r.Intn(len(p))
+		for i := range p {
+			if i != keep {
+				p[i] = "0"
+			}
+		}
+	default: // each term zero with probability 1/2
+		for i := range p {
+			if r.Bool() {
+				p[i] = "0"
+			}
 		}
 	}
 }
